@@ -120,6 +120,7 @@ void RouterSession::checkValidity(const char *when) {
                     violate("C03", "endpoints", fmt("%s-does-not-join-its-endpoints", wn), fmt("conn %d after %s: (%g,%g)..(%g,%g) expected (%g,%g)..(%g,%g)", kv.first, when, a.x, a.y, b.x, b.y, c.e[0].pt.x, c.e[0].pt.y, c.e[1].pt.x, c.e[1].pt.y));
             }
             if (!endsFree && !armedPinsGeometry) continue;     // geometry of attached ends: see C11
+            if (c.detachedByDelete) continue;                  // the object an end was attached to has been deleted under it: no attachment left to join (domain of the statement)
             // interior: no segment through a shape that does not contain an end point
             Pt ea = r.front(), eb = r.back();
             for (auto &sk : shapes) {
@@ -447,11 +448,16 @@ void RouterSession::run() {
             if (it == shapes.end() || !it->second.alive) continue;
             Poly np = polyFromJson(op["poly"]);
             if (np.size() < 3) continue;
+            { // an absolute pin offset (possibly inverted by an earlier transformPins) must stay inside the new box: valid arguments only
+                RectB nb = bbox(np); bool outside = false;
+                for (auto &pm : it->second.pins) if (!pm.prop && ((pm.xo > 0 && pm.xo > nb.w - 1) || (pm.yo > 0 && pm.yo > nb.h - 1))) outside = true;
+                if (outside) continue;
+            }
             Poly old = it->second.poly;
             it->second.poly = np; it->second.isRect = op.boolean("rect", false);
             onReshape(it->second, old, op);
             e2 = guardedCall(this, [&] { Polygon pg = toAvoid(np); router->moveShape(it->second.ref, pg); });
-            edited = true; zeroMoveOnly = false; probe("router.reshape");
+            edited = true; zeroMoveOnly = false; probe("router.reshape"); reshapedThisTxn.insert(k);
         } else if (o == "deleteShape") {
             int k = (int)op["id"].i();
             auto it = shapes.find(k);
@@ -514,7 +520,7 @@ void RouterSession::run() {
                 if (!e4.empty()) { onLibraryException(e4, "recover"); break; }
                 if (!useTransactions) { disarmFaults(pendingEdits > 0); pendingEdits = 0; afterTransaction("recover", true); yield("op"); continue; }
             }
-            if (process(op, o.c_str())) { addedThisTxn.clear(); addedJunctionsThisTxn.clear(); afterTransaction(o.c_str(), true); }
+            if (process(op, o.c_str())) { addedThisTxn.clear(); addedJunctionsThisTxn.clear(); reshapedThisTxn.clear(); afterTransaction(o.c_str(), true); }
             yield("op");
             continue;
         } else if (o == "output") {
@@ -537,7 +543,7 @@ void RouterSession::run() {
             if (o != "moveShape") zeroMoveOnly = false;
             edit();
             // in immediate mode only shape edits are certain to run a whole implicit transaction (recovery after a cancel counts from those)
-            if (!useTransactions) { disarmFaults(o == "moveShape" || o == "reshape" || o == "addShape" || o == "deleteShape"); pendingEdits = 0; addedThisTxn.clear(); addedJunctionsThisTxn.clear(); afterTransaction(o.c_str(), true); }
+            if (!useTransactions) { disarmFaults(o == "moveShape" || o == "reshape" || o == "addShape" || o == "deleteShape"); pendingEdits = 0; addedThisTxn.clear(); addedJunctionsThisTxn.clear(); reshapedThisTxn.clear(); afterTransaction(o.c_str(), true); }
         }
         yield("op");
     }
